@@ -27,6 +27,8 @@ def run(ctx):
     ctx.guarded('R10c', 'set_operation', lambda: r10c(ctx))
     ctx.rule('R10d', 'set_operation: the output position recorded in the footer advances by exactly the bytes written — each write\'s returned count is added, or a loop of uncounted writes is matched by one `+= trips * record size` that runs exactly when the loop runs')
     ctx.guarded('R10d', 'set_operation', lambda: r10d(ctx))
+    ctx.rule('R10e', 'the two-way merge orders and identifies records by their full 256-bit hashes (Ord::cmp on the hashes themselves; same-file test on the full file_hash fields), never by a truncated key')
+    ctx.guarded('R10e', 'merge step', lambda: __import__('xl.rules_r5', fromlist=['x']).merge_on_full_hash(ctx, 'R10e'))
 
 
 def r10a(ctx):
